@@ -29,6 +29,13 @@ MUTATORS = {
 }
 # mutators whose argument's *elements* flow into the receiver
 SPREAD_MUTATORS = {"extend", "update", "extendleft"}
+PROCESS_STATE_MUTATORS = {
+    "warnings.simplefilter", "warnings.filterwarnings", "warnings.resetwarnings", "warnings.catch_warnings",
+    "simplefilter", "filterwarnings", "resetwarnings", "catch_warnings",
+    "locale.setlocale", "setlocale", "sys.setrecursionlimit", "setrecursionlimit", "sys.set_int_max_str_digits",
+    "random.seed", "os.chdir", "os.putenv", "os.umask", "decimal.setcontext", "setcontext", "decimal.localcontext",
+    "socket.setdefaulttimeout", "time.tzset", "gc.disable", "gc.enable", "sys.setswitchinterval", "sys.settrace", "sys.setprofile",
+}
 PURE_BUILTINS = {
     "len", "isinstance", "issubclass", "repr", "str", "int", "float", "bool", "hash", "id", "callable",
     "hasattr", "any", "all", "sum", "min", "max", "abs", "round", "ord", "chr", "print", "format",
@@ -389,6 +396,9 @@ class Effects:
                 elif d in ("object.__setattr__", "object.__delattr__") and n.args:
                     v = self.val(n.args[0], f)
                     out.append((self._origin(f, n, "setattr", norm(n.args[0])), v.own, None))
+                elif d in PROCESS_STATE_MUTATORS:
+                    # library calls that edit interpreter-wide state (the warnings filter list, the locale, ...)
+                    out.append((self._origin(f, n, "process-state", d), frozenset({G}), None))
                 elif isinstance(n.func, ast.Attribute) and n.func.attr in MUTATORS:
                     recv = n.func.value
                     if self._is_repo_method_call(n, f):
